@@ -27,11 +27,13 @@ var (
 )
 
 var vpBackendChunk []byte
+var vpBackendHangsUp bool // after its chunk the host closes the connection (otherwise it stays quiet)
 var vpStepTunnel *Tunnel
 var vpSeenTarget, vpSeenAddr string
 
 func vpResetC01() {
 	vpBackendChunk = nil
+	vpBackendHangsUp = false
 	vpStepTunnel, vpSeenTarget, vpSeenAddr = nil, "", ""
 	vpDialLog = nil
 	vpDialConns = nil
@@ -49,7 +51,7 @@ func vpDial(network, address string, timeout time.Duration) (net.Conn, error) {
 	if vpBool("dialfail" + strconv.Itoa(len(vpDialLog))) {
 		return nil, errors.New("vpDial: connection refused")
 	}
-	c := &vpConn{block: true}
+	c := &vpConn{block: !vpBackendHangsUp}
 	if vpBackendChunk != nil {
 		c.reads = [][]byte{vpBackendChunk} // the host sends one chunk and then stays quiet
 	}
